@@ -6,13 +6,19 @@ and enum definitions and constants are extracted verbatim from /repo on every ru
 marker comments so that `roundtrip()` can undo them and compare with the original tokens.
 """
 from __future__ import annotations
-import base64, hashlib, json, os, re, sys
+import base64, dataclasses, hashlib, json, os, re, sys
 from dataclasses import dataclass, field
 from typing import Dict, List, Optional, Tuple
 import rs
 
 REPO = os.environ.get("VERIF_REPO", "/repo")
 ROOT = os.path.dirname(os.path.dirname(os.path.abspath(__file__)))
+
+
+try:
+    PARAMS_BASE = json.load(open(os.path.join(os.path.dirname(os.path.dirname(os.path.abspath(__file__))), "specs", "PARAMS.json")))
+except Exception:
+    PARAMS_BASE = {}
 
 
 class AnchorLost(Exception):
@@ -355,6 +361,7 @@ class Gen:
         self.functions: Dict[str, dict] = {}   # fid -> info
         self.items_sha: Dict[str, str] = {}
         self.rewrites: List[dict] = []
+        self.param_names: Dict[str, list] = {}
         self.extracted: List[Tuple[str, str, str]] = []   # (id, original text, emitted text)
         self.skipped_hints: List[str] = []
 
@@ -534,6 +541,17 @@ class Gen:
             while st[k0].text == "#": k0 = rs.match_close(st, k0 + 1) + 1
             sp.insert(st[k0].start, ADD("E13", "pub(crate) "))
         cls = d.clauses
+        # E20: contracts refer to parameters by position. specs/PARAMS.json records the parameter names each contract was written
+        # against; if a parameter has since been renamed in /repo (e.g. `block` -> `_block`), the recorded name is substituted by
+        # the current one in every clause / hint text of this function (token-level; never a field or path segment)
+        pnames = rs.param_names(st, fp)
+        self.param_names[f"{self.unit}/{fid}"] = pnames
+        base_names = PARAMS_BASE.get(f"{self.unit}/{fid}")
+        if base_names and len(base_names) == len(pnames):
+            ren = {b: a for a, b in zip(pnames, base_names) if a and b and a != b}
+            if ren and not (set(ren.values()) & set(ren.keys())):
+                cls = [dataclasses.replace(c, text=rs.rename_idents(c.text, ren)) for c in cls]
+                self.rewrites.append({"fn": fid, "rule": "E20", "renamed_params": ren})
         ret_name = next((c.args[0] for c in cls if c.kind == "ret"), "r")
         labels: List[str] = []
         info = {"fid": fid, "file": d.path, "line": S.line_of(st[it.kw].start), "sha256": self.items_sha[key],
